@@ -509,7 +509,15 @@ def proves(ctx, cond):
     if hasattr(ctx, '_budget'):
         ctx._budget()
     try:
-        return ctx.solver.check(z3.Not(c)) == z3.unsat
+        r = ctx.solver.check(z3.Not(c))
+        if r == z3.unknown and getattr(ctx, 'solver', None) is not None:
+            # the short wall-clock budget of the path solver ran out (a loaded machine): ask once more with five times the budget in a fresh solver,
+            # so that a structural decision (a bound, a size) does not flip to `not proved` - and the harness to undecided - because of scheduling
+            s2 = z3.Solver()
+            s2.set('timeout', 10000)
+            s2.add(*ctx.solver.assertions())
+            r = s2.check(z3.Not(c))
+        return r == z3.unsat
     except z3.Z3Exception:
         return False          # the solver gave up ('reached max unfolding' of the sequence procedure): not proved
 
